@@ -3,7 +3,7 @@ from props.fsmlib import *
 
 def cases(tier):
     L = []
-    fams = ['f10', 'fo8x', 'foroot'] if tier == 'quick' else ['f5', 'f10', 'fo8x', 'foroot', 'fo2', 'fsel', 'f12', 'fdeep']
+    fams = ['f10', 'fo8x', 'foroot', 'fw5'] if tier == 'quick' else ['f5', 'f10', 'fo8x', 'foroot', 'fo2', 'fsel', 'f12', 'fdeep', 'fw5']
     T = 1 if tier == 'quick' else 3
     for bottomup in (False, True):
         for fam in fams:
@@ -12,8 +12,8 @@ def cases(tier):
             fx = fixture('C05', fam_, o, tag='bu' if bottomup else 'td')
             base = ['P_C05', 'CB_BUDGET=0']
             if not bottomup: L.append(fsm_case('C05', fx, 'update', base + ['ENTRY=1'], timeout=600 * T, witness=(fam == 'f10')))
-            L.append(fsm_case('C05', fx, 'react', base + ['ENTRY=5'], timeout=600 * T, witness=(fam == 'f10')))
-            L.append(fsm_case('C05', fx, 'query', base + ['ENTRY=6'], timeout=600 * T, witness=False))
+            L.append(fsm_case('C05', fx, 'react', base + ['ENTRY=5'], timeout=600 * T, witness=(fam == 'f10'), cover=(fam == 'f10')))
+            L.append(fsm_case('C05', fx, 'query', base + ['ENTRY=6'], timeout=600 * T, witness=(fam in ('f10', 'foroot')), cover=(fam == 'f10')))
         # injected handlers (StateT<Inj1, Inj2>): order relative to the state's own handler; no consumption here
         for fam in (['f5'] if tier == 'quick' else ['f5', 'f10']):
             o = dict(sublimit=2, bottomup=bottomup, inject=True, callbacks=['guard', 'life', 'select', 'update', 'react', 'query'], act=[], kinds=0)   # every handler overridden: two injections make inherited defaults ambiguous
